@@ -502,6 +502,7 @@ func ruleC19(w *World, r *Report) {
 		}
 	}
 	ruleC19SliceMeter(w, r)
+	ruleSliceMeterExact(w, r, "C19", "R19.7")
 	ruleC19UP4(w, r)
 	ruleC19DefaultTC(w, r)
 }
